@@ -39,6 +39,11 @@ def main():
     tier = args.tier if args.tier in ("quick", "thorough") else "quick"
     seed = int(os.environ.get("VERIF_SEED", "20260926"))
     t0 = time.time()
+    try:  # a runaway evaluation (e.g. a cyclic template after a mutation) must not eat the machine
+        import resource
+        resource.setrlimit(resource.RLIMIT_AS, (12 << 30, 12 << 30))
+    except Exception:
+        pass
     os.chdir(lib.ROOT)
     scratch = lib.Scratch(pid)
     rc = 1
